@@ -50,6 +50,7 @@ namespace occa {
     template <>
     occaType newOccaType(const occa::primitive &value) {
       switch(value.type) {
+        case occa::primitiveType::bool_   : return newOccaType<bool>(value);
         case occa::primitiveType::int8_   : return newOccaType<int8_t>(value);
         case occa::primitiveType::uint8_  : return newOccaType<uint8_t>(value);
         case occa::primitiveType::int16_  : return newOccaType<int16_t>(value);
@@ -67,6 +68,7 @@ namespace occa {
     occaType newOccaType(const occa::primitive &value,
                          const int type) {
       switch(type) {
+        case occa::c::typeType::bool_   : return newOccaType<bool>(value);
         case occa::c::typeType::int8_   : return newOccaType<int8_t>(value);
         case occa::c::typeType::uint8_  : return newOccaType<uint8_t>(value);
         case occa::c::typeType::int16_  : return newOccaType<int16_t>(value);
@@ -425,6 +427,11 @@ namespace occa {
                          value.bytes);
           break;
         }
+        case occa::c::typeType::bool_: {
+          return occa::kernelArg(
+            occa::kernelArgData(occa::primitive((bool) value.value.int8_))
+          );
+        }
         case occa::c::typeType::int8_: {
           return occa::kernelArg(value.value.int8_);
         }
@@ -481,6 +488,8 @@ namespace occa {
       occa::primitive p;
 
       switch (value.type) {
+        case occa::c::typeType::bool_:
+          p = (bool) value.value.int8_; break;
         case occa::c::typeType::int8_:
           p = value.value.int8_; break;
         case occa::c::typeType::uint8_:
@@ -513,6 +522,7 @@ namespace occa {
       occa::primitive p = primitive(value);
 
       switch (type) {
+        case occa::c::typeType::bool_: return p.to<bool>();
         case occa::c::typeType::int8_: return p.to<int8_t>();
         case occa::c::typeType::uint8_: return p.to<uint8_t>();
         case occa::c::typeType::int16_: return p.to<int16_t>();
